@@ -8,6 +8,7 @@ import (
 	"sort"
 	"strings"
 	"testing"
+	"verifharness/internal/watchdog"
 
 	"github.com/btcsuite/btcwallet/walletdb"
 	"pgregory.net/rapid"
@@ -105,7 +106,7 @@ func opTable(t *rapid.T, m *mgrsim.Machine, set *mgrsim.NeedleSet, secretTapscri
 		"rename":       func() { m.OpRename(t) },
 		"importKey":    func() { m.OpImportKey(t) },
 		"importScript": func() { m.OpImportScript(t) },
-		"setSynced":    func() { m.OpSetSyncedTo(t) },
+		"setSynced":    func() { m.OpSetSyncedTo(t, mgrsim.Commit) },
 		"newScope":     func() { m.OpNewScope(t) },
 		"restart": func() {
 			m.Case.Logf("restart")
@@ -161,136 +162,136 @@ func TestC04NoSecretOnDisk(t *testing.T) {
 		maxSteps = 60
 	}
 	rapid.Check(t, func(t *rapid.T) {
-		c := g.Begin()
-		defer c.End()
-		m := mgrsim.NewLongPass(t, "C04", c)
-		defer m.Close()
+		watchdog.Case(t, "C04", g, func(c *evid.Case) {
+			m := mgrsim.NewLongPass(t, "C04", c)
+			defer m.Close()
 
-		sc := &fileScanner{g: g, c: c, prop: "C04", fail: t.Fatalf, path: m.Path, set: mgrsim.NewNeedleSet(m.Params)}
-		// commit #1 (Create) happened inside the constructor: its image is the file as it is now
-		sc.capture()
-		m.DB.AfterCommit = sc.capture
-		everPrivate := [][]byte{append([]byte(nil), m.PrivPass...)}
+			sc := &fileScanner{g: g, c: c, prop: "C04", fail: t.Fatalf, path: m.Path, set: mgrsim.NewNeedleSet(m.Params)}
+			// commit #1 (Create) happened inside the constructor: its image is the file as it is now
+			sc.capture()
+			m.DB.AfterCommit = sc.capture
+			everPrivate := [][]byte{append([]byte(nil), m.PrivPass...)}
 
-		wrongKeyRuns := 0
-		wrongKey := func(where string) {
-			rep, err := mgrsim.C04WrongKey(m.DB, mgrsim.NSKey, m.PubPass, m.Params, sc.set)
-			if err != nil {
-				t.Fatalf("INCONCLUSIVE: wrong-key oracle (%s): %v", where, err)
-			}
-			wrongKeyRuns++
-			g.Count("wrongkey-runs", 1)
-			g.Count("wrongkey-values-visited", int64(rep.Values))
-			g.Count("wrongkey-candidates-offered", int64(rep.Blobs))
-			for a, n := range rep.Opened {
-				g.Count("wrongkey-opened-by:"+strings.SplitN(a, " ", 2)[0], int64(n))
-			}
-			// the oracle is not vacuous: the public adversary reads the master HD public key
-			_, xpub := m.Master.Neuter().Serialize(m.Params.HDPublicKeyID)
-			seen := false
-			for _, pt := range rep.OpenedPlain {
-				if string(pt) == xpub {
-					seen = true
+			wrongKeyRuns := 0
+			wrongKey := func(where string) {
+				rep, err := mgrsim.C04WrongKey(m.DB, mgrsim.NSKey, m.PubPass, m.Params, sc.set)
+				if err != nil {
+					t.Fatalf("INCONCLUSIVE: wrong-key oracle (%s): %v", where, err)
+				}
+				wrongKeyRuns++
+				g.Count("wrongkey-runs", 1)
+				g.Count("wrongkey-values-visited", int64(rep.Values))
+				g.Count("wrongkey-candidates-offered", int64(rep.Blobs))
+				for a, n := range rep.Opened {
+					g.Count("wrongkey-opened-by:"+strings.SplitN(a, " ", 2)[0], int64(n))
+				}
+				// the oracle is not vacuous: the public adversary reads the master HD public key
+				_, xpub := m.Master.Neuter().Serialize(m.Params.HDPublicKeyID)
+				seen := false
+				for _, pt := range rep.OpenedPlain {
+					if string(pt) == xpub {
+						seen = true
+					}
+				}
+				if !seen {
+					t.Fatalf("INCONCLUSIVE: wrong-key oracle (%s): the adversary holding the public passphrase could not read the master HD public key (%d candidates, opened %v)",
+						where, rep.Blobs, rep.Opened)
+				}
+				for _, f := range rep.Findings {
+					switch {
+					case f.Needle.Private:
+						m.Violation("encrypted with the wrong key (%s): %s", where, f)
+					case strings.HasPrefix(f.Adversary, "zero-key"):
+						// DESIGN C04 L: the script crypto key is never loaded on this tree; the bytes on disk are still not the raw script
+						c.Class("observation:script-sealed-under-zero-key")
+						g.Note("observation (not raised): a secret imported script is sealed under the all-zero crypto key (cryptoKeyScript is never derived on this tree); the file holds ciphertext, not the raw script")
+					default:
+						c.Class("observation:secret-script-opened-by-" + strings.SplitN(f.Adversary, " ", 2)[0])
+						g.Note("observation (not raised): " + f.String())
+					}
 				}
 			}
-			if !seen {
-				t.Fatalf("INCONCLUSIVE: wrong-key oracle (%s): the adversary holding the public passphrase could not read the master HD public key (%d candidates, opened %v)",
-					where, rep.Blobs, rep.Opened)
-			}
-			for _, f := range rep.Findings {
-				switch {
-				case f.Needle.Private:
-					m.Violation("encrypted with the wrong key (%s): %s", where, f)
-				case strings.HasPrefix(f.Adversary, "zero-key"):
-					// DESIGN C04 L: the script crypto key is never loaded on this tree; the bytes on disk are still not the raw script
-					c.Class("observation:script-sealed-under-zero-key")
-					g.Note("observation (not raised): a secret imported script is sealed under the all-zero crypto key (cryptoKeyScript is never derived on this tree); the file holds ciphertext, not the raw script")
-				default:
-					c.Class("observation:secret-script-opened-by-" + strings.SplitN(f.Adversary, " ", 2)[0])
-					g.Note("observation (not raised): " + f.String())
+
+			lastWrongKeyAt := 0
+			check := func(op string) {
+				if !bytes.Equal(everPrivate[len(everPrivate)-1], m.PrivPass) {
+					everPrivate = append(everPrivate, append([]byte(nil), m.PrivPass...))
+				}
+				m.C04Collect(sc.set)
+				sc.flush(op)
+				if sc.commits-lastWrongKeyAt >= 5 {
+					lastWrongKeyAt = sc.commits
+					wrongKey("after " + op)
 				}
 			}
-		}
 
-		lastWrongKeyAt := 0
-		check := func(op string) {
-			if !bytes.Equal(everPrivate[len(everPrivate)-1], m.PrivPass) {
-				everPrivate = append(everPrivate, append([]byte(nil), m.PrivPass...))
-			}
-			m.C04Collect(sc.set)
-			sc.flush(op)
-			if sc.commits-lastWrongKeyAt >= 5 {
-				lastWrongKeyAt = sc.commits
-				wrongKey("after " + op)
-			}
-		}
-
-		// histories that end with a conversion to watching-only import no SECRET taproot scripts: deletePrivateKeys has no
-		// case for their rows (recorded as an observation by TestC04ObserveTaprootScriptResidue; outside the C04 statement)
-		convert := rapid.IntRange(0, 2).Draw(t, "convert") == 0
-		ops := opTable(t, m, sc.set, !convert)
-		names := expand(weights)
-		steps := rapid.IntRange(4, maxSteps).Draw(t, "steps")
-		check("create")
-		wrongKey("after create")
-		for i := 0; i < steps; i++ {
-			name := rapid.SampledFrom(names).Draw(t, "op")
-			if i == 0 && rapid.IntRange(0, 2).Draw(t, "startUnlocked") > 0 {
-				name = "unlockRight"
-			}
-			ops[name]()
-			check(name)
-		}
-		wrongKey("end of history")
-
-		if convert {
-			c.Class("convert-phase")
-			// list the stored private-key ciphertexts (needs the unlocked manager), then convert locked or unlocked
-			if m.Locked {
-				ops["unlockRight"]()
-			}
-			privateBlobs := m.C04PrivateCiphertexts()
-			g.Count("convert-private-ciphertexts-listed", int64(len(privateBlobs)))
-			if len(privateBlobs) < 1+2*len(m.Scopes) {
-				t.Fatalf("INCONCLUSIVE: only %d private ciphertexts found before the conversion, expected at least the master key and the coin-type and default account keys of %d scopes",
-					len(privateBlobs), len(m.Scopes))
-			}
-			if rapid.Bool().Draw(t, "convertLocked") {
-				m.OpLock(t)
-			} else {
-				c.Class("convert-while-unlocked")
-			}
-			m.C04Convert()
-			check("convert-to-watching-only")
-			m.C04CheckCiphertextsGone("right after conversion", privateBlobs, func(addr string) {
-				c.Class("observation:taproot-script-ciphertext-survives-conversion")
-			})
-			m.C04CheckWatchOnly(t, "right after conversion", everPrivate)
-			m.Case.Logf("restart")
-			m.Restart()
-			m.C04CheckWatchOnly(t, "converted and reopened", everPrivate)
-			check("reopen after conversion")
-			wrongKey("after conversion and reopen")
-			wnames := expand(weightsWatchOnly)
-			more := rapid.IntRange(0, 6).Draw(t, "stepsWatchOnly")
-			for i := 0; i < more; i++ {
-				name := rapid.SampledFrom(wnames).Draw(t, "opWatchOnly")
+			// histories that end with a conversion to watching-only import no SECRET taproot scripts: deletePrivateKeys has no
+			// case for their rows (recorded as an observation by TestC04ObserveTaprootScriptResidue; outside the C04 statement)
+			convert := rapid.IntRange(0, 2).Draw(t, "convert") == 0
+			ops := opTable(t, m, sc.set, !convert)
+			names := expand(weights)
+			steps := rapid.IntRange(4, maxSteps).Draw(t, "steps")
+			check("create")
+			wrongKey("after create")
+			for i := 0; i < steps; i++ {
+				name := rapid.SampledFrom(names).Draw(t, "op")
+				if i == 0 && rapid.IntRange(0, 2).Draw(t, "startUnlocked") > 0 {
+					name = "unlockRight"
+				}
 				ops[name]()
-				check(name + " (watching-only)")
-				m.CheckAllIssued("watching-only, after " + name)
-				m.CheckAccessors("watching-only, after " + name)
+				check(name)
 			}
-			if more > 0 {
-				wrongKey("end of the watching-only phase")
-				m.C04CheckWatchOnly(t, "end of the watching-only phase", everPrivate)
-			}
-		}
-		// the file as it is left behind
-		sc.capture()
-		sc.commits--
-		check("final image")
+			wrongKey("end of history")
 
-		classify(g, c, m, sc, wrongKeyRuns)
+			if convert {
+				c.Class("convert-phase")
+				// list the stored private-key ciphertexts (needs the unlocked manager), then convert locked or unlocked
+				if m.Locked {
+					ops["unlockRight"]()
+				}
+				privateBlobs := m.C04PrivateCiphertexts()
+				g.Count("convert-private-ciphertexts-listed", int64(len(privateBlobs)))
+				if len(privateBlobs) < 1+2*len(m.Scopes) {
+					t.Fatalf("INCONCLUSIVE: only %d private ciphertexts found before the conversion, expected at least the master key and the coin-type and default account keys of %d scopes",
+						len(privateBlobs), len(m.Scopes))
+				}
+				if rapid.Bool().Draw(t, "convertLocked") {
+					m.OpLock(t)
+				} else {
+					c.Class("convert-while-unlocked")
+				}
+				m.C04Convert()
+				check("convert-to-watching-only")
+				m.C04CheckCiphertextsGone("right after conversion", privateBlobs, func(addr string) {
+					c.Class("observation:taproot-script-ciphertext-survives-conversion")
+				})
+				m.C04CheckWatchOnly(t, "right after conversion", everPrivate)
+				m.Case.Logf("restart")
+				m.Restart()
+				m.C04CheckWatchOnly(t, "converted and reopened", everPrivate)
+				check("reopen after conversion")
+				wrongKey("after conversion and reopen")
+				wnames := expand(weightsWatchOnly)
+				more := rapid.IntRange(0, 6).Draw(t, "stepsWatchOnly")
+				for i := 0; i < more; i++ {
+					name := rapid.SampledFrom(wnames).Draw(t, "opWatchOnly")
+					ops[name]()
+					check(name + " (watching-only)")
+					m.CheckAllIssued("watching-only, after " + name)
+					m.CheckAccessors("watching-only, after " + name)
+				}
+				if more > 0 {
+					wrongKey("end of the watching-only phase")
+					m.C04CheckWatchOnly(t, "end of the watching-only phase", everPrivate)
+				}
+			}
+			// the file as it is left behind
+			sc.capture()
+			sc.commits--
+			check("final image")
+
+			classify(g, c, m, sc, wrongKeyRuns)
+		})
 	})
 }
 
